@@ -103,6 +103,7 @@ pub fn judge(case: &Value) -> Option<Value> {
     let hix = |k: &str| a[k].as_u64().map(|x| x as usize - 1);
     let num = |k: &str| a[k].as_u64().unwrap_or(0) as usize;
     let mut why: Vec<String> = vec![];
+    let mut refused: Option<bool> = None;
     let r = guarded(|| {
         match op {
             "from_vec" => {
@@ -130,6 +131,16 @@ pub fn judge(case: &Value) -> Option<Value> {
             "seek" => {
                 let h = t[hix("h").unwrap()].as_ref().unwrap();
                 let r = h.seek(h.start() + num("n"));
+                t[hix("r").unwrap()] = r;
+            }
+            "seekabs" => {
+                let r = t[hix("h").unwrap()].as_ref().unwrap().seek(num("a"));
+                refused = Some(r.is_none());
+                t[hix("r").unwrap()] = r;
+            }
+            "substrabs" => {
+                let r = t[hix("h").unwrap()].as_ref().unwrap().substr(num("i"), num("j"));
+                refused = Some(r.is_none());
                 t[hix("r").unwrap()] = r;
             }
             "substr" => {
@@ -163,11 +174,18 @@ pub fn judge(case: &Value) -> Option<Value> {
             }
             _ => {}
         }
-        t
+        (t, refused)
     });
     match r {
         Outcome::Panic(m) => why.push(format!("panic: {}", m)),
-        Outcome::Done(t) => {
+        Outcome::Done((t, refused)) => {
+            // operations with absolute positions: refused exactly when the specification says so
+            if let Some(got) = refused {
+                let want = a["none"].as_u64().unwrap_or(0) == 1;
+                if got != want {
+                    why.push(format!("{} {}: the operation {} although the position is {} the value", op, a, if got { "was refused" } else { "returned a value" }, if want { "outside" } else { "inside" }));
+                }
+            }
             let post = case["post"].as_array().cloned().unwrap_or_default();
             // liveness after the operation, from the pre-state and the operation
             for (i, h) in t.iter().enumerate() {
@@ -176,7 +194,7 @@ pub fn judge(case: &Value) -> Option<Value> {
                     None => {
                         let was = case["pre"]["hs"][i]["buf"].as_u64().unwrap_or(0) != 0;
                         let dropped = op == "drop" && hix("h") == Some(i);
-                        let produced = hix("r") == Some(i) || (matches!(op, "from_vec" | "from_static") && hix("h") == Some(i));
+                        let produced = (hix("r") == Some(i) && a["none"].as_u64().unwrap_or(0) != 1) || (matches!(op, "from_vec" | "from_static") && hix("h") == Some(i));
                         if (was && !dropped) || produced {
                             why.push(format!("handle {}: the operation returned nothing", i + 1));
                         }
